@@ -150,6 +150,29 @@ func init() {
 						}
 					}
 				}
+				// a path that was saved to twice (an older wallet was there before), then the current file is
+				// damaged: still an error, never the older wallet (whatever backups the saver may keep)
+				{
+					hp := filepath.Join(dir, fmt.Sprintf("hist%d_%d", wi, ks))
+					hh := fileoperations.New(fileoperations.Config{WalletPath: hp, WalletPasswd: keyHex}, aeswrapper.New())
+					older, _ := wallet.New()
+					hh.SaveWallet(&older)
+					if err := hh.SaveWallet(&wl); err == nil {
+						cur, _ := os.ReadFile(hp)
+						for _, n := range []int{0, 5, 12, len(cur) / 2, len(cur) - 1} {
+							os.WriteFile(hp, cur[:n], 0o644)
+							out, got := read(hp, keyHex)
+							judge("history-truncate", n, true, n >= 12, false, true, out, got)
+						}
+						for _, i := range []int{0, 11, 12, len(cur) / 2, len(cur) - 1} {
+							cp := append([]byte{}, cur...)
+							cp[i] ^= 0x01
+							os.WriteFile(hp, cp, 0o644)
+							out, got := read(hp, keyHex)
+							judge("history-corrupt", i, true, true, false, true, out, got)
+						}
+					}
+				}
 				// PEM round trip
 				if err := h.SaveToPem(&wl); err != nil {
 					return err
